@@ -38,6 +38,21 @@ Proof.
   rewrite !app_length. lia.
 Qed.
 
+(* the same, for parsers whose returned value keeps a view of the trailing bytes (certificate
+   payloads): appended bytes leave the consumed length alone and the value changes only up
+   to a relation R (same serialisation, same fields) *)
+Definition AppendInvR {A} (P : parser A) (R : A -> A -> Prop) : Prop :=
+  forall x v r y, wf (x ++ y) -> P x = Ok (v, r) -> exists v', P (x ++ y) = Ok (v', r ++ y) /\ R v' v.
+Lemma AppendInvR_PrefixFree {A} (P : parser A) R : AppendInvR P R ->
+  forall w v, wf w -> P w = Ok (v, []) -> forall k, (k < length w)%nat -> forall v' r', P (firstn k w) <> Ok (v', r').
+Proof.
+  intros HA w v W Hw k Hk v' r' Hp.
+  assert (W' : wf (firstn k w ++ skipn k w)) by (rewrite firstn_skipn; exact W).
+  destruct (HA _ _ _ (skipn k w) W' Hp) as [v2 [H2 _]]. rewrite firstn_skipn, Hw in H2.
+  inversion H2 as [[Hv Hr]]. symmetry in Hr. apply app_eq_nil in Hr. destruct Hr as [_ Hs].
+  apply (f_equal (@length _)) in Hs. rewrite skipn_length in Hs. cbn in Hs. lia.
+Qed.
+
 (* ---- slices under append ---- *)
 Lemma slice_to_app n x y : (n <= length x)%nat -> slice_to n (x ++ y) = slice_to n x.
 Proof.
